@@ -15,6 +15,7 @@ Record wfc (mx sh : N) (s : cm) : Prop := {
   w_mx : cm_max s = mx /\ mx < M64;
   w_total : cm_total s <= mx;
   w_cells : Forall (fun c => c <= mx) (cm_counts s);
+  w_bound : Forall (fun c => c <= cm_total s) (cm_counts s);
   w_len : length (cm_counts s) = N.to_nat (cm_nh s * cm_nb s);
   w_empty : cm_total s = 0 -> cm_counts s = repeat 0 (N.to_nat (cm_nh s * cm_nb s))
 }.
@@ -38,6 +39,12 @@ Qed.
 Lemma flat_map_le8_length cs : length (flat_map (le_bytes 8) cs) = (8 * length cs)%nat.
 Proof. induction cs as [|c cs IH]; cbn [flat_map length]; [reflexivity|]. rewrite app_length, le_bytes_length, IH. lia. Qed.
 
+Lemma forallb_le_true t cs : Forall (fun c => c <= t) cs -> forallb (fun c => c <=? t) cs = true.
+Proof. intros H. apply forallb_forall. rewrite Forall_forall in H. intros c Hc. specialize (H c Hc). lia. Qed.
+
+Lemma forallb_le_Forall t cs : forallb (fun c => c <=? t) cs = true -> Forall (fun c => c <= t) cs.
+Proof. intros H. apply Forall_forall. rewrite forallb_forall in H. intros c Hc. specialize (H c Hc). lia. Qed.
+
 Lemma header_length s : length (cm_header s) = 16%nat.
 Proof. reflexivity. Qed.
 
@@ -52,7 +59,7 @@ Proof. reflexivity. Qed.
 
 Theorem roundtrip mx sh s : wfc mx sh s -> cm_deserialize mx sh (cm_serialize s) = Ok s.
 Proof.
-  intros [Hnh Hnb Hent [Hsh Hshr] [Hmx Hmxr] Htot Hcells Hlen Hempty].
+  intros [Hnh Hnb Hent [Hsh Hshr] [Hmx Hmxr] Htot Hcells Hbound Hlen Hempty].
   unfold cm_serialize, cm_deserialize, cm_parse_header.
   set (payload := if cm_is_empty s then [] else le_bytes 8 (cm_total s) ++ flat_map (le_bytes 8) (cm_counts s)).
   rewrite header_explicit. cbn [app length nth firstn skipn Nat.ltb Nat.leb].
@@ -80,7 +87,7 @@ Proof.
       with (flat_map (le_bytes 8) (cm_total s :: cm_counts s)).
     rewrite <- (app_nil_r (flat_map _ _)).
     rewrite read_cells_flat by (auto; constructor; auto).
-    cbn [obind]. destruct s; cbn in *; subst; reflexivity.
+    cbn [obind]. rewrite (forallb_le_true _ _ Hbound). destruct s; cbn in *; subst; reflexivity.
 Qed.
 
 (* ---------- C14: the reader never reaches a panic site, whatever the bytes ---------- *)
@@ -108,7 +115,8 @@ Proof.
   destruct (cm_parse_header sh bs) as [[[[nh nb] flags] entries]| |]; cbn [obind]; try congruence.
   destruct (negb _); [discriminate|]. destruct (_ <? _); [discriminate|].
   pose proof (read_cells_not_stuck mx (S (N.to_nat entries)) (skipn 16 bs)) as H.
-  destruct (read_cells _ _ _) as [[|t cs]| |]; cbn [obind]; congruence.
+  destruct (read_cells _ _ _) as [[|t cs]| |]; cbn [obind]; try congruence.
+  destruct (forallb _ cs); congruence.
 Qed.
 
 (* whatever deserialize accepts is a table of the announced shape within the type's range *)
@@ -150,10 +158,27 @@ Proof.
     apply Forall_forall. intros c Hc. apply repeat_spec in Hc. lia.
   - destruct (_ <? _); [discriminate|].
     destruct (read_cells mx (S (N.to_nat (nh * nb))) (skipn 16 bs)) as [[|t cs]| |] eqn:E; cbn [obind]; try discriminate.
+    destruct (forallb (fun c => c <=? t) cs) eqn:Efb; [|discriminate].
     intros Hq. injection Hq as <-. apply read_cells_ok in E as (Hl & Hf & Hb).
     cbn [length] in Hl. inversion Hf; subst. rewrite skipn_length in Hb.
     cbn [cm_nh cm_nb cm_max cm_seed_hash cm_total cm_counts].
     repeat split; auto; try lia.
+Qed.
+
+(* ... and every counter it holds is bounded by its total weight (checked by the repaired reader:
+   this is the invariant under which updates and merges cannot overflow while the total fits) *)
+Theorem deserialize_ok_bounded mx sh bs s :
+  cm_deserialize mx sh bs = Ok s -> Forall (fun c => c <= cm_total s) (cm_counts s).
+Proof.
+  unfold cm_deserialize.
+  destruct (cm_parse_header sh bs) as [[[[nh nb] flags] entries]| |]; cbn [obind]; try discriminate.
+  destruct (negb _).
+  - intros Hq. injection Hq as <-. unfold cm_make; cbn [cm_total cm_counts].
+    apply Forall_forall. intros c Hc. apply repeat_spec in Hc. lia.
+  - destruct (_ <? _); [discriminate|].
+    destruct (read_cells mx _ _) as [[|t cs]| |]; cbn [obind]; try discriminate.
+    destruct (forallb (fun c => c <=? t) cs) eqn:Efb; [|discriminate].
+    intros Hq. injection Hq as <-. cbn [cm_total cm_counts]. apply forallb_le_Forall. exact Efb.
 Qed.
 
 (* ---------- C12: the layout specification, written from the format description ---------- *)
@@ -182,7 +207,7 @@ Proof. repeat split; reflexivity. Qed.
 
 Theorem writer_conforms mx sh s : wfc mx sh s -> spec_decode (cm_serialize s) = Some (abs_of s).
 Proof.
-  intros [Hnh Hnb Hent [Hsh Hshr] [Hmx Hmxr] Htot Hcells Hlen Hempty].
+  intros [Hnh Hnb Hent [Hsh Hshr] [Hmx Hmxr] Htot Hcells Hbound Hlen Hempty].
   destruct layout_constants as (Hp & Hv & Hf & Hfl & _).
   unfold cm_serialize, spec_decode. rewrite header_explicit. rewrite Hp, Hv, Hf, Hfl.
   cbn [app length nth firstn skipn Nat.ltb Nat.leb]. rewrite !N.eqb_refl. cbn [andb negb].
@@ -248,6 +273,7 @@ Proof.
     rewrite E, Ht. apply (cell_le_weight nb ltac:(lia) bucket Hbr). }
   constructor; rewrite ?En, ?Eb; auto; try lia.
   - apply Forall_nth_le. intros i Hi. specialize (Hcell i Hi). lia.
+  - apply Forall_nth_le. intros i Hi. exact (Hcell i Hi).
   - intros Ht0. apply all_nth_zero_repeat; [exact Hlen|].
     intros i Hi. rewrite <- Hlen in Hi. specialize (Hcell i Hi). lia.
 Qed.
@@ -258,7 +284,7 @@ Definition state_of (mx : N) (a : cm_abs) : cm :=
 
 Lemma abs_ok_wfc mx sh a : abs_ok mx sh a -> wfc mx sh (state_of mx a).
 Proof.
-  intros (Hnh & Hnb & Hent & Hsh & Hshr & Hmx & Htot & Hcells & Hlen & Hempty).
+  intros (Hnh & Hnb & Hent & Hsh & Hshr & Hmx & Htot & Hcells & Hbound & Hlen & Hempty).
   constructor; cbn [state_of cm_nh cm_nb cm_max cm_seed_hash cm_total cm_counts]; auto; unfold M64; try lia.
 Qed.
 
@@ -290,7 +316,7 @@ Theorem foreign_read mx sh v a :
   variant_ok v -> abs_ok mx sh a ->
   cm_deserialize mx sh (spec_encode v a) = Ok (state_of mx a).
 Proof.
-  intros (_ & _ & Hhi & Hev) (Hnh & Hnb & Hent & Hsh & Hshr & Hmx & Htot & Hcells & Hlen & Hempty).
+  intros (_ & _ & Hhi & Hev) (Hnh & Hnb & Hent & Hsh & Hshr & Hmx & Htot & Hcells & Hbound & Hlen & Hempty).
   unfold spec_encode.
   set (payload := if a_total a =? 0 then [] else le_bytes 8 (a_total a) ++ flat_map (le_bytes 8) (a_cells a)).
   repeat rewrite <- app_assoc. rewrite spec_header_explicit.
@@ -319,7 +345,7 @@ Proof.
       with (flat_map (le_bytes 8) (a_total a :: a_cells a)).
     rewrite <- (app_nil_r (flat_map _ _)).
     rewrite read_cells_flat by (unfold M64; auto; constructor; auto).
-    cbn [obind]. unfold state_of. rewrite <- Hsh. reflexivity.
+    cbn [obind]. rewrite (forallb_le_true _ _ Hbound). unfold state_of. rewrite <- Hsh. reflexivity.
 Qed.
 
 (* the abstraction of the decoded sketch is the encoded state, and re-serializing it gives the
@@ -339,7 +365,7 @@ Qed.
 Theorem spec_decode_encode mx sh v a :
   variant_ok v -> abs_ok mx sh a -> spec_decode (spec_encode v a) = Some a.
 Proof.
-  intros (_ & _ & Hhi & Hev) (Hnh & Hnb & Hent & Hsh & Hshr & Hmx & Htot & Hcells & Hlen & Hempty).
+  intros (_ & _ & Hhi & Hev) (Hnh & Hnb & Hent & Hsh & Hshr & Hmx & Htot & Hcells & Hbound & Hlen & Hempty).
   unfold spec_encode.
   set (payload := if a_total a =? 0 then [] else le_bytes 8 (a_total a) ++ flat_map (le_bytes 8) (a_cells a)).
   repeat rewrite <- app_assoc. rewrite spec_header_explicit. unfold spec_decode.
@@ -365,12 +391,14 @@ Qed.
 (* boolean admissibility used by the oracle implies the propositional one (given the type's range) *)
 Lemma abs_okb_ok mx sh a : sh < 65536 -> mx < 18446744073709551616 -> abs_okb mx sh a = true -> abs_ok mx sh a.
 Proof.
-  intros Hsh Hmx H. unfold abs_okb in H. repeat (apply andb_prop in H as [H ?]).
-  assert (Hall : Forall (fun c => c <= mx) (a_cells a)).
-  { apply Forall_forall. intros c Hc. rewrite forallb_forall in H2. specialize (H2 c Hc). lia. }
-  assert (Hlen : length (a_cells a) = N.to_nat (a_nh a * a_nb a)) by (apply Nat.eqb_eq; auto).
+  intros Hsh Hmx H. unfold abs_okb in H.
+  repeat match goal with Hc : _ && _ = true |- _ => apply andb_prop in Hc as [? ?] end.
+  assert (Hall : Forall (fun c => c <= mx) (a_cells a)) by (apply forallb_le_Forall; assumption).
+  assert (Hbnd : Forall (fun c => c <= a_total a) (a_cells a)) by (apply forallb_le_Forall; assumption).
+  assert (Hlen : length (a_cells a) = N.to_nat (a_nh a * a_nb a)) by (apply Nat.eqb_eq; assumption).
   assert (Hemp : a_total a = 0 -> a_cells a = repeat 0 (N.to_nat (a_nh a * a_nb a))).
-  { intros Ht0. apply Bool.orb_prop in H0 as [H0|H0]; [lia|].
+  { intros Ht0.
+    match goal with Ho : negb _ || _ = true |- _ => apply Bool.orb_prop in Ho as [Ho|Ho]; [lia|]; rename Ho into H0 end.
     rewrite <- Hlen. clear -H0.
     induction (a_cells a) as [|c l IH]; [reflexivity|]. cbn [forallb] in H0. apply andb_prop in H0 as [Hc Hl].
     cbn [length repeat]. f_equal; [lia|auto]. }
